@@ -1,18 +1,103 @@
-(* C20 -- statements only; see DESIGN.md section 6 C20.  Theorems are added as the proofs land;
-   the witnesses below are evaluated in the kernel on the whole-parser model. *)
-From Coq Require Import String.
-From MdIt Require Import Prims Tables Tree Render Core Dump Dispatch.
-Local Open Scope string_scope.
+(* C20 -- typed storage and tree API obey their map and traversal semantics.
+   Statements only.  Models: model/ErasedSet.v (src/common/erasedset.rs, typekey.rs),
+   model/Tree.v (src/parser/node.rs). *)
+From MdIt Require Import Prims ErasedSet Tree ErasedSetProofs TreeProofs.
 Local Open Scope list_scope.
 Local Open Scope N_scope.
 
-Definition html_of (cfg src : string) : str :=
-  let m := build_md (bs cfg) 100 in
-  match snd (parse (default_fuel m) m (bs src)) with
-  | inr d => match render false (d_root d) with inr h => h | inl _ => bs "<render panic>" end
-  | inl _ => bs "<parse panic>"
-  end.
+(* --- storage: refinement to a map  type id -> option value  (abs), for every key and value.
+   wf = one entry per type id and every boxed value has the type of its key. --- *)
+Theorem C20_new : wf es_new /\ same (abs es_new) a_empty.
+Proof. exact (conj wf_new (fun k => eq_refl)). Qed.
 
-Example C20_witness_walk :
-  map snd (walk (mk KRoot None [mk KParagraph None [mk (KText [97]) None []]; mk (KHr 42 3) None []]) 0) = [0; 1; 2; 1].
-Proof. vm_compute. reflexivity. Qed.
+(* insert returns the old value and behaves as map update *)
+Theorem C20_insert : forall s k v, wf s ->
+  exists s', es_insert s k v = inr (s', abs s k) /\ wf s' /\ same (abs s') (a_insert (abs s) k v).
+Proof. exact insert_refines. Qed.
+
+(* get-or-insert inserts only when absent *)
+Theorem C20_get_or_insert : forall s k v, wf s ->
+  match abs s k with
+  | Some x => es_get_or_insert s k v = inr (s, x)
+  | None => exists s', es_get_or_insert s k v = inr (s', v) /\ wf s' /\ same (abs s') (a_insert (abs s) k v)
+  end.
+Proof. exact get_or_insert_refines. Qed.
+
+(* assignment through get_mut *)
+Theorem C20_get_mut : forall s k v, wf s ->
+  let '(s', old) := es_set s k v in
+  old = abs s k /\ wf s' /\
+  same (abs s') (match abs s k with Some _ => a_insert (abs s) k v | None => abs s end).
+Proof. exact set_refines. Qed.
+
+Theorem C20_remove : forall s k, wf s ->
+  exists s', es_remove s k = inr (s', abs s k) /\ wf s' /\ same (abs s') (a_remove (abs s) k).
+Proof. exact remove_refines. Qed.
+
+Theorem C20_clear : forall s, wf (es_clear s) /\ same (abs (es_clear s)) a_empty.
+Proof. exact clear_refines. Qed.
+
+Theorem C20_contains : forall s k, wf s ->
+  es_contains s k = match abs s k with Some _ => true | None => false end.
+Proof. exact contains_refines. Qed.
+
+(* at most one value per type; len counts the types that hold a value *)
+Theorem C20_len : forall s, wf s ->
+  es_len s = len (map e_key s) /\ NoDup (map e_key s) /\ forall k, In k (map e_key s) <-> abs s k <> None.
+Proof. exact len_refines. Qed.
+
+(* under any sequence of operations on any mix of types no downcast ever fails *)
+Theorem C20_any_sequence : forall ops s, wf s -> exists s', run s ops = inr s' /\ wf s'.
+Proof. exact run_never_panics. Qed.
+
+(* --- traversal: nodes are addressed by child-index paths; `paths n` lists every valid
+   address exactly once, parents before children and siblings left to right (pre-order). --- *)
+Theorem C20_walk_nodes : forall n d, map Some (map fst (walk n d)) = map (at_path n) (paths n).
+Proof. exact walk_nodes. Qed.
+
+Theorem C20_walk_depths : forall n d,
+  map snd (walk n d) = map (fun p => d + N.of_nat (length p)) (paths n).
+Proof. exact walk_depths. Qed.
+
+Theorem C20_walk_once : forall n d, length (walk n d) = size n.
+Proof. exact walk_length. Qed.
+
+Theorem C20_paths_complete : forall n p, In p (paths n) <-> at_path n p <> None.
+Proof. exact paths_complete. Qed.
+
+Theorem C20_paths_nodup : forall n, NoDup (paths n).
+Proof. exact paths_nodup. Qed.
+
+(* walk_mut visits the same addresses, whatever the callback does to each node *)
+Theorem C20_walk_mut_shape : forall f n d, paths (walk_mut f n d) = paths n.
+Proof. exact walk_mut_paths. Qed.
+
+(* replace changes the kind and nothing else *)
+Theorem C20_replace : forall n k,
+  n_kind (replace n k) = k /\ n_children (replace n k) = n_children n /\
+  n_map (replace n k) = n_map n /\ n_attrs (replace n k) = n_attrs n /\ n_env (replace n k) = n_env n.
+Proof. exact replace_spec. Qed.
+
+(* non-vacuity: a reachable, non-trivial well-formed state; a tree with siblings at depth 2 *)
+Example C20_nonvacuous :
+  (exists s, run es_new [OInsert 2 5; OInsert 3 7; OInsert 0 0; ORemove 2; OGetOrInsert 4 9] = inr s /\ wf s /\ es_len s = 3) /\
+  map snd (walk (mk KRoot None [mk KParagraph None [mk (KText [97]) None []; mk KSoftbreak None []]; mk (KHr 42 3) None []]) 0)
+  = [0; 1; 2; 2; 1].
+Proof.
+  split; [|vm_compute; reflexivity].
+  destruct (run_never_panics [OInsert 2 5; OInsert 3 7; OInsert 0 0; ORemove 2; OGetOrInsert 4 9] es_new wf_new) as (s & E & W).
+  exists s. split; [exact E|]. split; [exact W|].
+  vm_compute in E. injection E as <-. vm_compute. reflexivity.
+Qed.
+
+Print Assumptions C20_insert.
+Print Assumptions C20_get_or_insert.
+Print Assumptions C20_get_mut.
+Print Assumptions C20_remove.
+Print Assumptions C20_len.
+Print Assumptions C20_any_sequence.
+Print Assumptions C20_walk_nodes.
+Print Assumptions C20_walk_depths.
+Print Assumptions C20_paths_complete.
+Print Assumptions C20_paths_nodup.
+Print Assumptions C20_walk_mut_shape.
